@@ -180,6 +180,19 @@ class Slicer:
         m = {(g.path, i): a for i, a in enumerate(v[2]) if i < g.argc}
         return subst(rv, m, self)
 
+    def inline_deep(self, v, depth=4, keep=()):
+        """v with every call to a private workspace function (not in `keep`) replaced by what it returns"""
+        if not isinstance(v, tuple) or not v or depth < 0:
+            return v
+        if v[0] == 'call' and v[1] in self.prog.fns and v[1] not in keep:
+            iv = self.inline_call(v)
+            if iv is not None and iv != v:
+                return self.inline_deep(iv, depth - 1, keep)
+        if v[0] in ('const', 'param', 'fnitem', 'constitem', 'unknown', 'closure_env', 'upvar'):
+            return v
+        out = tuple(self.inline_deep(x, depth, keep) if isinstance(x, tuple) else x for x in v)
+        return out if out != v else v
+
     def apply_closure(self, clv, args):
         """value returned by calling closure / fn item clv with the given argument values, or None"""
         if not (isinstance(clv, tuple) and clv):
@@ -356,11 +369,75 @@ class Slicer:
                 return ('agg', None, None, tuple(comps))
             return ('unknown', 'no-def _%d in %s' % (local, fn.path))
         vals = [self._def_value(fn, dd, seen, d) for dd in defs]
-        v = _phi(vals)
+        v = self._select(fn, defs, vals) if len(defs) > 1 else None
+        if v is None:
+            v = _phi(vals)
         return self._with_updates(fn, local, v, seen, d)
 
+    def _select(self, fn, defs, vals):
+        """a `match` that maps the variants of one enum value to literal results is kept as a table:
+        ('select', subject, enum, ((variant names, value)...)) — the correlation a plain phi would lose"""
+        def tabular(x):
+            if x[0] == 'const':
+                return True
+            if x[0] == 'agg' and x[1] is not None:
+                return all(tabular(fv) for _, fv in x[3])
+            return False
+        if not all(tabular(x) for x in vals):
+            return None
+        from .guards import conditions
+        rows = []
+        subj = enum = None
+        for dd, x in zip(defs, vals):
+            cds = [c for c in conditions(fn, dd[1], self) if c.kind == 'variant' and c.enum and not c.enum.startswith('std::ops::ControlFlow')]
+            if not cds:
+                return None
+            c = cds[-1]
+            cs = canon(c.subject)
+            if subj is None:
+                subj, enum, subj_v = cs, c.enum, c.subject
+            elif cs != subj or c.enum != enum:
+                return None
+            rows.append((tuple(sorted(c.outcome)), x))
+        seen_v = set()
+        for names, _ in rows:
+            if seen_v & set(names):
+                return None
+            seen_v |= set(names)
+        return ('select', subj_v, enum, tuple(rows))
+
+    # `&mut self` methods of std string types that append their argument
+    APPENDERS = {'std::ffi::OsString::push', 'std::string::String::push_str', 'std::string::String::push',
+                 'std::path::PathBuf::push'}
+
+    def _appends(self, fn, local):
+        """values appended to `local` through `&mut local` (in reverse post-order of the call sites)"""
+        key = ('appends', fn.path)
+        idx = self._cache.get(key)
+        if idx is None:
+            idx = {}
+            refs = {}
+            for bi, b in enumerate(fn.blocks):
+                for st in b['s']:
+                    if st[0] == '=' and len(st[1]) == 1 and st[2]['r'] == 'ref' and st[2].get('mut') and len(st[2]['p']) == 1:
+                        refs[st[1][0]] = st[2]['p'][0]
+            rpo = fn._rpo()
+            pos = {b: i for i, b in enumerate(rpo)}
+            for c in sorted((c for c in fn.calls if not c.indirect and c.name in self.APPENDERS and len(c.args) == 2),
+                            key=lambda c: pos.get(c.bb, 10 ** 6)):
+                pl = op_place(c.args[0])
+                if pl and len(pl) == 1 and pl[0] in refs:
+                    idx.setdefault(refs[pl[0]], []).append(c)
+            self._cache[key] = idx
+        return idx.get(local, [])
+
     def _with_updates(self, fn, local, v, seen, d):
-        """record field assignments made after the whole definition: ('updated', base, ((proj, value)...))"""
+        """record field assignments made after the whole definition: ('updated', base, ((proj, value)...));
+        a string built by pushing onto it is ('concat', (base, pushed...))"""
+        app = self._appends(fn, local)
+        if app:
+            fresh = v[0] == 'call' and v[1].endswith(('::new', '::with_capacity', '::default'))
+            return ('concat', v, tuple(self.operand(fn, c.args[1], seen, d) for c in app), fresh)
         ups = []
         for dd in fn.partial_defs(local):
             kind, bi, si, rv, pl = dd
@@ -539,6 +616,11 @@ def _contains_cycle(v):
     return any(_contains_cycle(x) for x in v if isinstance(x, tuple))
 
 
+def concat_parts(v):
+    """all parts of a ('concat', base, pushed, fresh) value, the base first unless it is a fresh empty string"""
+    return ([] if v[3] else [v[1]]) + list(v[2])
+
+
 def walk(v):
     """pre-order iterator over all sub-values"""
     if isinstance(v, tuple):
@@ -585,6 +667,10 @@ def vstr(v, depth=0):
         return '%s%s{%s}' % (_short(v[1] or '?'), ('::' + v[2]) if v[2] else '', ', '.join('%s: %s' % (n, s(x)) for n, x in v[3]))
     if k in ('tuple', 'array'):
         return ('(%s)' if k == 'tuple' else '[%s]') % ', '.join(s(x) for x in v[1])
+    if k == 'select':
+        return 'select(%s){%s}' % (s(v[1]), ', '.join('%s=>%s' % ('|'.join(n), s(x)) for n, x in v[3]))
+    if k == 'concat':
+        return 'concat(%s)' % ' ++ '.join(s(x) for x in concat_parts(v))
     if k == 'closure':
         return 'closure<%s>[%s]' % (_short(v[1]), ', '.join(s(x) for x in v[2]))
     if k == 'fmt':
